@@ -1,6 +1,7 @@
 package main
 
 import (
+	"sync"
 	"deps.dev/util/resolve"
 	"deps.dev/util/semver"
 
@@ -103,14 +104,46 @@ func init() {
 				m[i*n+j] = vs[i].Compare(vs[j])
 			}
 		}
+		// second pass: every string parsed AGAIN (fresh objects: compare short-cuts pointer-identical operands, and
+		// anything memoised on a *Version would differ between a used and a fresh one), in reverse order, on a
+		// second goroutine running concurrently with a third pass over the first objects
+		vs2 := make([]*semver.Version, n)
+		for i, v := range vs {
+			w, err := sys.Parse(v.String())
+			if err != nil {
+				w = v
+			}
+			vs2[i] = w
+		}
 		var unstable []sx.V
-		for j := n - 1; j >= 0; j-- {
-			for i := n - 1; i >= 0; i-- {
-				if c := vs[i].Compare(vs[j]); c != m[i*n+j] {
-					unstable = append(unstable, sx.L(sx.Int(i), sx.Int(j)))
+		var mu sync.Mutex
+		var wg sync.WaitGroup
+		wg.Add(2)
+		go func() {
+			defer wg.Done()
+			for j := n - 1; j >= 0; j-- {
+				for i := n - 1; i >= 0; i-- {
+					if c := vs2[i].Compare(vs[j]); c != m[i*n+j] {
+						mu.Lock()
+						unstable = append(unstable, sx.L(sx.Int(i), sx.Int(j)))
+						mu.Unlock()
+					}
 				}
 			}
-		}
+		}()
+		go func() {
+			defer wg.Done()
+			for i := 0; i < n; i++ {
+				for j := n - 1; j >= 0; j-- {
+					if c := vs[i].Compare(vs2[j]); c != m[i*n+j] {
+						mu.Lock()
+						unstable = append(unstable, sx.L(sx.Int(i), sx.Int(j)))
+						mu.Unlock()
+					}
+				}
+			}
+		}()
+		wg.Wait()
 		mv := make([]sx.V, len(m))
 		for i, c := range m {
 			mv[i] = sx.Int(c)
@@ -135,6 +168,21 @@ func init() {
 			re = sx.L(sx.Sym("ok"), rawSx(semver.VerifDump(v2)), sx.Int(v.Compare(v2)), sx.B(v2.Canon(true)))
 		}
 		return sx.L(sx.Sym("ok"), rawSx(semver.VerifDump(v)), sx.B(c1), sx.B(c0), re)
+	})
+	// sv_canon0: (sys str) -> the same three clauses for the build-less canonical form Canon(false):
+	// ("err") | ("ok" canon0 ("err") | ("ok" cmp(orig,reparsed) canon0(reparsed)))
+	register("sv_canon0", func(a sx.V) sx.V {
+		sys := sysOf(a.Nth(0))
+		v, err := sys.Parse(a.Nth(1).Str())
+		if err != nil {
+			return sx.L(sx.Sym("err"))
+		}
+		c0 := v.Canon(false)
+		v2, err := sys.Parse(c0)
+		if err != nil {
+			return sx.L(sx.Sym("ok"), sx.B(c0), sx.L(sx.Sym("err")))
+		}
+		return sx.L(sx.Sym("ok"), sx.B(c0), sx.L(sx.Sym("ok"), sx.Int(v.Compare(v2)), sx.B(v2.Canon(false))))
 	})
 	// sv_syscompare: (sys a b) -> System.Compare(a,b)
 	register("sv_syscompare", func(a sx.V) sx.V {
